@@ -4,6 +4,8 @@
 -/
 import Model.Group
 import Lemmas.Group
+import Lemmas.JoinFirst
+import Lemmas.JoinFull
 
 namespace DI.C05
 
@@ -23,6 +25,32 @@ theorem semi_anti_partition (n : Nat) (lk : List (List Cell)) (m : Nat) (rk : Li
     (semiJoinIdx n lk m rk ++ antiJoinIdx n lk m rk).Perm (List.range n) ∧
     (semiJoinIdx n lk m rk).Pairwise (· < ·) ∧ (antiJoinIdx n lk m rk).Pairwise (· < ·) :=
   ⟨DI.semi_anti_partition n lk m rk, semiJoinIdx_sorted n lk m rk, antiJoinIdx_sorted n lk m rk⟩
+
+/-- **first match**: the right row merged into left row `i` has the same key tuple, no missing key
+    value, and is the first such row in the original right order. -/
+theorem left_join_first_match (n : Nat) (lk : List (List Cell)) (m : Nat) (rk : List (List Cell))
+    (i : Nat) (hi : i < n) (j : Nat) (h : (joinSrc n lk m rk)[i]! = some j) :
+    j < m ∧ noNa rk j ∧ rowKey rk j = (rowsOf n lk)[i]! ∧
+      ∀ j' < j, noNa rk j' → rowKey rk j' ≠ (rowsOf n lk)[i]! := joinSrc_some n lk m rk i hi j h
+
+/-- a left row stays unmatched exactly when no right row without missing key value has its key
+    tuple (in particular a missing key never matches). -/
+theorem left_join_unmatched (n : Nat) (lk : List (List Cell)) (m : Nat) (rk : List (List Cell))
+    (i : Nat) (hi : i < n) (h : (joinSrc n lk m rk)[i]! = none) :
+    ∀ j < m, noNa rk j → rowKey rk j ≠ (rowsOf n lk)[i]! := joinSrc_none n lk m rk i hi h
+
+/-- full_join is the left join plus the right rows no left row matched, reordered … -/
+theorem full_join_is_left_plus_unmatched (n : Nat) (lk : List (List Cell)) (m : Nat) (rk : List (List Cell)) :
+    (fullJoinPairs n lk m rk).Perm (leftJoinPairs n lk m rk ++ fullJoinExtra n lk m rk) :=
+  fullJoinPairs_perm n lk m rk
+
+/-- … so it keeps every left row and every right row, and never appends a right row that was merged. -/
+theorem full_join_never_loses_rows (n : Nat) (lk : List (List Cell)) (m : Nat) (rk : List (List Cell)) :
+    (∀ i < n, ∃ p ∈ fullJoinPairs n lk m rk, p.1 = some i) ∧
+    (∀ j < m, ∃ p ∈ fullJoinPairs n lk m rk, p.2 = some j) ∧
+    (∀ p ∈ fullJoinExtra n lk m rk, ∃ j, p.2 = some j ∧ j < m ∧ ∀ q ∈ leftJoinPairs n lk m rk, q.2 ≠ some j) :=
+  ⟨fun i hi => fullJoin_keeps_left n lk m rk i hi, fun j hj => fullJoin_keeps_right n lk m rk j hj,
+   fun p hp => fullJoinExtra_unmatched n lk m rk p hp⟩
 
 example : leftJoinPairs 3 [[some (.i 1), none, some (.i 2)]] 3 [[some (.i 2), none, some (.i 2)]]
     = [(some 0, none), (some 1, none), (some 2, some 0)] := by decide
